@@ -841,7 +841,8 @@ func (in *Interp) conv(dst, src types.Type, x value) value {
 			return x
 		}
 	}
-	panic(fmt.Sprintf("conv %v -> %v (%T)", src, dst, x))
+	in.unsupported(fmt.Sprintf("conversion %v -> %v (%T)", src, dst, x))
+	return nil
 }
 
 func (in *Interp) convInt(x *smt.Term, sb, db *types.Basic) *smt.Term {
